@@ -755,5 +755,7 @@ func TestVerifC04S(t *testing.T) {
 	kit.Run(t, "C04", "zrpc-server-cancel", kit.N(6000, 80000), vfCancelCase)
 	kit.Run(t, "C04", "zrpc-server-timer", kit.N(800, 12000), vfTimerCase)
 	kit.Run(t, "C04", "zrpc-server-grid", kit.N(160, 2000), vfGridCase)
+	// accumulation: many calls whose handlers stay parked past their deadlines (zz_verif_c04_many_test.go)
+	kit.Run(t, "C04", "zrpc-server-many", kit.N(16, 160), vfManyCase)
 	kit.End()
 }
